@@ -22,6 +22,7 @@ class Obligation:
     def __init__(self, name, hyps, goal, line=None, kind='post', path=None, consts=None):
         self.name, self.hyps, self.goal, self.line, self.kind, self.path = name, hyps, goal, line, kind, path
         self.consts = consts or {}
+        self.full = None           # (hyps, goal) of the un-reduced obligation, for prove_isolated
 
     def formula(self):
         """negated implication for a satisfiability check"""
@@ -185,10 +186,14 @@ class Context:
         self.path_obls.append(Obligation(f"{self.prop}.{self.hname}.{name}", self.all_hyps(), V.zbool(goal), self.cur_line, kind,
                                          path=list(d[0] for d in self.decisions)))
 
-    def prove_isolated(self, name, goal, hyps, kind='post'):
-        """obligation proved from the listed hypotheses only (a subset of what is known: sound, and keeps nonlinear queries small)"""
-        self.path_obls.append(Obligation(f"{self.prop}.{self.hname}.{name}", [V.zbool(h) for h in hyps] + list(self.pc), V.zbool(goal), self.cur_line, kind,
-                                         path=list(d[0] for d in self.decisions)))
+    def prove_isolated(self, name, goal, hyps, kind='post', full_goal=None, extra_full_hyps=()):
+        """obligation proved from the listed hypotheses only (a subset / generalisation of what is known: sound, and keeps nonlinear queries small).
+        A counter-model of the reduced query is not a counterexample of the obligation: it is re-checked against ALL hypotheses of the path (and the
+        un-generalised goal) before the obligation is reported as refuted; if that re-check is not `sat` the obligation is undecided."""
+        ob = Obligation(f"{self.prop}.{self.hname}.{name}", [V.zbool(h) for h in hyps] + list(self.pc), V.zbool(goal), self.cur_line, kind,
+                        path=list(d[0] for d in self.decisions))
+        ob.full = (self.all_hyps() + [V.zbool(h) for h in extra_full_hyps], V.zbool(full_goal if full_goal is not None else goal))
+        self.path_obls.append(ob)
 
     def safety(self, name, cond):
         if not self.safety_on:
